@@ -60,7 +60,7 @@ Plans(s) ==
   {[type |-> "RegisterPlan", id |-> 1, height |-> h, op |-> o, key |-> k, execs |-> x] :
       h \in {s.height + 1, s.height + 2} \cap 1..MaxH, o \in {"v1", "v3"}, k \in {"k1", "k3"}, x \in {<<"e2">>, <<"e2", "e3">>}}
   \cup {[type |-> "RegisterPlan", id |-> 1, height |-> h, op |-> "v3", key |-> "k3", execs |-> x] :       \* the same executor named twice; an executor spelled in upper case
-      h \in {s.height + 1} \cap 1..MaxH, x \in {<<"e2", "e2">>, <<"up:e2">>}}
+      h \in {s.height + 1} \cap 1..MaxH, x \in {<<"e2", "e2">>, <<"up:e2">>, << >>}}                \* ... and a plan that names no executor at all: nobody holds the role afterwards
   \cup {[type |-> "RegisterPlan", id |-> i, height |-> h, op |-> o, key |-> k, execs |-> x] :
       i \in {0, 1}, h \in {0, s.height + 1}, o \in {"v3", "bad:notbech32"}, k \in {"k3", "nil"}, x \in {<<"e2">>, <<"bad:notbech32">>}}
 PlanEvents(s) ==
